@@ -33,10 +33,17 @@ def _plan(quick, seed):
         ("gwalk", "Parser_gwalk6.cfg" if quick else "Parser_gwalk8.cfg", dict(workers=nw), [], True),
         # RandomElement draws the same sequence in every TLC worker: one worker
         ("randtree", "Parser_rand.cfg", dict(simulate="num=%d" % (120 if quick else 1500), depth=6, workers=1), [], True),
+        # (iv) field values as rune strings: every string of <= 2 (thorough 3) runes over the 26-rune palette and of
+        # <= 3 (thorough 5) runes over one rune per (class, width), in the contexts, plus seeded random strings of <= 10
+        ("phraseP", "Parser_phraseP2.cfg" if quick else "Parser_phraseP3.cfg", dict(workers=nw), [], True),
+        ("phraseQ", "Parser_phraseQ3.cfg" if quick else "Parser_phraseQ5.cfg", dict(workers=nw), [], True),
+        ("randphrase", "Parser_randphrase.cfg", dict(simulate="num=%d" % (15 if quick else 150), depth=11, **sim), [], True),
         ("walkA", "Parser_walkA3q.cfg" if quick else "Parser_walkA4.cfg", dict(workers=nw), [], True),
         ("walkB", "Parser_walkB3q.cfg" if quick else "Parser_walkB4.cfg", dict(workers=nw), [], True),
         ("randwalkA", "Parser_randwalkA.cfg", dict(simulate="num=%d" % (40 if quick else 400), depth=17, **sim), [], True),
         ("randwalkB", "Parser_randwalkB.cfg", dict(simulate="num=%d" % (40 if quick else 400), depth=17, **sim), [], True),
+        ("walkU", "Parser_walkU3q.cfg" if quick else "Parser_walkU4.cfg", dict(workers=nw), [], True),
+        ("randwalkU", "Parser_randwalkU.cfg", dict(simulate="num=%d" % (40 if quick else 400), depth=17, **sim), [], True),
         ("store", "Parser_walkS.cfg", dict(workers=2), ["-store"], True),
         ("deep", "Parser_deepq.cfg" if quick else "Parser_deep.cfg", dict(workers=2), ["-hang", "300s", "-deepworkers"], True),
     ]
